@@ -1031,7 +1031,16 @@ func vxScalarToGo(k cqlspec.Kind, v cqlspec.Value, gt reflect.Type, ch *vxCh) (r
 			}
 			return reflect.ValueOf(*new(big.Int).Set(n)), nil
 		case gt == vxTString:
-			out.SetString(n.String())
+			// decimal notation: zero padding does not change the number ("007", "-010")
+			str := n.String()
+			if pad := ch.next(4); pad == 0 && str != "0" {
+				if str[0] == '-' {
+					str = "-0" + str[1:]
+				} else {
+					str = "00" + str
+				}
+			}
+			out.SetString(str)
 		case vxIsUnsigned(gt.Kind()):
 			if n.Sign() < 0 {
 				n = new(big.Int).Add(n, new(big.Int).Lsh(big.NewInt(1), uint(8*vxIntWidth(k))))
